@@ -287,6 +287,22 @@ def navSteps (g : G) : V → List Gen.PbShape.Step → Option V
     | some v' => navSteps g v' rest
     | none => none
 
+/-- `==` on values, spelled out (identity of instances, equality of strings) -/
+def veq : V → V → Bool
+  | .none, .none => true
+  | .bool a, .bool b => a == b
+  | .str a, .str b => a == b
+  | .nat a, .nat b => a == b
+  | .inst a, .inst b => a == b
+  | .obj a, .obj b => a == b
+  | .rrel a, .rrel b => a == b
+  | .dt a, .dt b => a == b
+  | .actAct, .actAct => true
+  | .ghost a, .ghost b => a == b
+  | .node, .node => true
+  | .child a, .child b => a == b
+  | _, _ => false
+
 /-! ### the interpreter -/
 
 structure Env where
@@ -431,7 +447,7 @@ mutual
       | .isNone a => (match evalE E f g fr a with | some (v, g') => some (.bool (v == .none), g') | none => none)
       | .eq a b =>
         (match evalE E f g fr a with
-         | some (v, g') => (match evalE E f g' fr b with | some (w, g'') => some (.bool (v == w), g'') | none => none)
+         | some (v, g') => (match evalE E f g' fr b with | some (w, g'') => some (.bool (veq v w), g'') | none => none)
          | none => none)
   def exec (E : Env) : Nat → G → Fr → List S → Option (Ctl × G)
     | 0, _, _, _ => none
@@ -727,14 +743,14 @@ theorem unary_eq (fc : FCtx) (nd : Node) (g g1 : G) (n o b : Nat) (op t : String
   simp only at ho ht hb
   by_cases h1 : lowerStr op = "not" ∨ lowerStr op = "empty" ∨ lowerStr op = "not_empty"
   · simp [callFn, accept_UnaryOperationNode, bindParams, exec, ↓call_v_val, ↓call_s_dt, hb, evalE, evalA, evalKw, Fr.set, Fr.get,
-      List.lookup, blankRow, St.new, relateV, linkFrom, newVal, setRef, partnerOk, linkKey, hop, hk, ha, kwStr, truthy,
+      List.lookup, blankRow, St.new, relateV, linkFrom, newVal, setRef, partnerOk, linkKey, hop, hk, ha, kwStr, truthy, veq,
       h1, unTy, Flat.boolUnOps, ho, List.getElem?_append_left hlt]
   · by_cases h2 : lowerStr op = "cardinality"
     · simp [callFn, accept_UnaryOperationNode, bindParams, exec, ↓call_v_val, ↓call_s_dt, hb, evalE, evalA, evalKw, Fr.set, Fr.get,
-        List.lookup, blankRow, St.new, relateV, linkFrom, newVal, setRef, partnerOk, linkKey, hop, hk, ha, kwStr, truthy,
+        List.lookup, blankRow, St.new, relateV, linkFrom, newVal, setRef, partnerOk, linkKey, hop, hk, ha, kwStr, truthy, veq,
         h1, h2, unTy, Flat.boolUnOps, ho, List.getElem?_append_left hlt]
     · simp [callFn, accept_UnaryOperationNode, bindParams, exec, ↓call_v_val, ↓call_s_dt, hb, evalE, evalA, evalKw, Fr.set, Fr.get,
-        List.lookup, blankRow, St.new, relateV, linkFrom, newVal, setRef, partnerOk, linkKey, hop, hk, ha, kwStr, truthy,
+        List.lookup, blankRow, St.new, relateV, linkFrom, newVal, setRef, partnerOk, linkKey, hop, hk, ha, kwStr, truthy, veq,
         h1, h2, unTy, Flat.boolUnOps, ho, List.getElem?_append_left hlt, navSteps, navStep, ht]
 
 /-- the R820 type `accept_BinaryOperationNode` selects, as the model's `typeOf` states it -/
@@ -785,7 +801,7 @@ theorem binary_cmp (h1 : lowerStr op = "<" ∨ lowerStr op = "<=" ∨ lowerStr o
     · simp [List.getElem?_eq_none h] at hr
   simp only at hl hr ht hb
   simp [binRes, callFn, accept_BinaryOperationNode, bindParams, exec, ↓call_v_val, ↓call_s_dt, hb, evalE, evalA, evalKw, Fr.set, Fr.get,
-      List.lookup, blankRow, St.new, relateV, linkFrom, newVal, setRef, partnerOk, linkKey, hop, hkl, hkr, hal, har, kwStr, truthy,
+      List.lookup, blankRow, St.new, relateV, linkFrom, newVal, setRef, partnerOk, linkKey, hop, hkl, hkr, hal, har, kwStr, truthy, veq,
       h1, binTy, Flat.compareOps, hl, hr, List.getElem?_append_left hltl, List.getElem?_append_left hltr,
       nav_type, ht]
 
@@ -803,7 +819,7 @@ theorem binary_arith (h1 : ¬ (lowerStr op = "<" ∨ lowerStr op = "<=" ∨ lowe
     · simp [List.getElem?_eq_none h] at hr
   simp only at hl hr ht hb
   simp [binRes, callFn, accept_BinaryOperationNode, bindParams, exec, ↓call_v_val, ↓call_s_dt, ↓dt_beq, hb, evalE, evalA, evalKw, Fr.set, Fr.get,
-      List.lookup, blankRow, St.new, relateV, linkFrom, newVal, setRef, partnerOk, linkKey, hop, hkl, hkr, hal, har, kwStr, truthy,
+      List.lookup, blankRow, St.new, relateV, linkFrom, newVal, setRef, partnerOk, linkKey, hop, hkl, hkr, hal, har, kwStr, truthy, veq,
       h1, h2, binTy, Flat.compareOps,
       hl, hr, List.getElem?_append_left hltl, List.getElem?_append_left hltr, nav_type, ht]
 
@@ -815,6 +831,58 @@ theorem binary_eq (h2 : ¬ (lowerStr op = "|" ∨ lowerStr op = "+" ∨ lowerStr
       lowerStr op = ">" ∨ lowerStr op = "and" ∨ lowerStr op = "or"
   · exact binary_cmp fc nd g g1 g2 n l r bl br op t accL accR hop hkl hkr hal har hb hl hr ht h1
   · exact binary_arith fc nd g g1 g2 n l r bl br op t accL accR hop hkl hkr hal har hb hl hr ht h1 h2
+theorem binary_set_plain (h1 : ¬ (lowerStr op = "<" ∨ lowerStr op = "<=" ∨ lowerStr op = "==" ∨ lowerStr op = "!=" ∨ lowerStr op = ">=" ∨
+      lowerStr op = ">" ∨ lowerStr op = "and" ∨ lowerStr op = "or"))
+    (h2 : lowerStr op = "|" ∨ lowerStr op = "+" ∨ lowerStr op = "&" ∨ lowerStr op = "^" ∨ lowerStr op = "-")
+    (h3a : ¬ t = "inst_ref<Object>") (h3b : ¬ t = "inst_ref_set<Object>") :
+    callFn (mkEnv fc nd) (n + 40) accept_BinaryOperationNode [.node] [] g = binRes g2 op t l r := by
+  obtain ⟨⟨pop, scopes, ok⟩, lval, tys⟩ := g2
+  have hltl : l < pop.length := by
+    rcases Nat.lt_or_ge l pop.length with h | h
+    · exact h
+    · simp [List.getElem?_eq_none h] at hl
+  have hltr : r < pop.length := by
+    rcases Nat.lt_or_ge r pop.length with h | h
+    · exact h
+    · simp [List.getElem?_eq_none h] at hr
+  simp only at hl hr ht hb
+  simp [binRes, callFn, accept_BinaryOperationNode, bindParams, exec, ↓call_v_val, ↓call_s_dt, hb, evalE, evalA, evalKw, Fr.set, Fr.get,
+      List.lookup, blankRow, St.new, relateV, linkFrom, newVal, setRef, partnerOk, linkKey, hop, hkl, hkr, hal, har, kwStr, truthy, veq,
+      h1, h2, h3a, h3b, binTy, Flat.compareOps,
+      hl, hr, List.getElem?_append_left hltl, List.getElem?_append_left hltr, nav_type, ht]
+theorem binary_gen (h1 : ¬ (lowerStr op = "<" ∨ lowerStr op = "<=" ∨ lowerStr op = "==" ∨ lowerStr op = "!=" ∨ lowerStr op = ">=" ∨
+      lowerStr op = ">" ∨ lowerStr op = "and" ∨ lowerStr op = "or"))
+    (h2 : lowerStr op = "|" ∨ lowerStr op = "+" ∨ lowerStr op = "&" ∨ lowerStr op = "^" ∨ lowerStr op = "-")
+    (h3 : t = "inst_ref<Object>" ∨ t = "inst_ref_set<Object>") :
+    callFn (mkEnv fc nd) (n + 40) accept_BinaryOperationNode [.node] [] g = binRes g2 op t l r := by
+  obtain ⟨⟨pop, scopes, ok⟩, lval, tys⟩ := g2
+  have hltl : l < pop.length := by
+    rcases Nat.lt_or_ge l pop.length with h | h
+    · exact h
+    · simp [List.getElem?_eq_none h] at hl
+  have hltr : r < pop.length := by
+    rcases Nat.lt_or_ge r pop.length with h | h
+    · exact h
+    · simp [List.getElem?_eq_none h] at hr
+  simp only at hl hr ht hb
+  rcases h3 with rfl | rfl <;>
+  simp [binRes, callFn, accept_BinaryOperationNode, bindParams, exec, ↓call_v_val, ↓call_s_dt, hb, evalE, evalA, evalKw, Fr.set, Fr.get,
+      List.lookup, blankRow, St.new, relateV, linkFrom, newVal, setRef, partnerOk, linkKey, hop, hkl, hkr, hal, har, kwStr, truthy, veq,
+      h1, h2, binTy, Flat.compareOps, nav_generic, nav_none,
+      hl, hr, List.getElem?_append_left hltl, List.getElem?_append_left hltr, nav_type, ht]
+
+/-- every operator: comparison / logical, set operators on generic references, set operators on other types, the rest -/
+theorem binary_all : callFn (mkEnv fc nd) (n + 40) accept_BinaryOperationNode [.node] [] g = binRes g2 op t l r := by
+  by_cases h1 : lowerStr op = "<" ∨ lowerStr op = "<=" ∨ lowerStr op = "==" ∨ lowerStr op = "!=" ∨ lowerStr op = ">=" ∨
+      lowerStr op = ">" ∨ lowerStr op = "and" ∨ lowerStr op = "or"
+  · exact binary_cmp fc nd g g1 g2 n l r bl br op t accL accR hop hkl hkr hal har hb hl hr ht h1
+  · by_cases h2 : (lowerStr op = "|" ∨ lowerStr op = "+" ∨ lowerStr op = "&" ∨ lowerStr op = "^" ∨ lowerStr op = "-")
+    · by_cases h3 : t = "inst_ref<Object>" ∨ t = "inst_ref_set<Object>"
+      · exact binary_gen fc nd g g1 g2 n l r bl br op t accL accR hop hkl hkr hal har hb hl hr ht h1 h2 h3
+      · exact binary_set_plain fc nd g g1 g2 n l r bl br op t accL accR hop hkl hkr hal har hb hl hr ht h1 h2
+          (fun h => h3 (Or.inl h)) (fun h => h3 (Or.inr h))
+    · exact binary_arith fc nd g g1 g2 n l r bl br op t accL accR hop hkl hkr hal har hb hl hr ht h1 h2
+
 end Binary
 
 theorem real_eq (fc : FCtx) (nd : Node) (g : G) (n : Nat) (v : String) (hb : BlkOK g.st)
